@@ -85,6 +85,9 @@ func (d *Unmarshaler[T]) Unmarshal(data T) (UnmarshaledError, error) {
 }
 
 func (d *Unmarshaler[T]) unmarshal(decoded *DecodedData) (UnmarshaledError, error) {
+	if decoded == nil {
+		return nil, ErrInternal.New("decoded data is nil")
+	}
 	def, err := d.resolveKind(errdef.Kind(decoded.Kind))
 	if err != nil {
 		return nil, err
